@@ -114,9 +114,10 @@ class CompleteTaskHandler(StabilizeHandler[CompleteTask]):
                         error=error,
                         source_handler="CompleteTaskHandler",
                     )
-                elif message.status == WorkflowStatus.SKIPPED:
-                    pass  # Skipped tasks don't need completion events
                 else:
+                    # Includes SKIPPED: the event carries the task's status, so
+                    # an event-sourced replay sees the task end as SKIPPED
+                    # instead of leaving it RUNNING forever.
                     self.event_recorder.record_task_completed(
                         task,
                         workflow_id=workflow_id,
